@@ -6,7 +6,7 @@
    Real arithmetic (+ - * / rem on reals, >real, >int, round, f32 conversions) is taken
    from a record [fops] so that this file does not depend on Flocq; F64.v provides the
    IEEE-754 instance used by the correspondence check. *)
-From Xeh Require Import Model.Prelude Model.Bits Model.Codec Model.Cell Model.Lexer Model.Fmt Model.Vm.
+From Xeh Require Import Model.Prelude Model.Bits Model.Codec Model.Cell Model.Lexer Model.Fmt Model.Vm Model.BaseN.
 Local Notation length := List.length.
 Local Open Scope Z_scope.
 
@@ -773,6 +773,32 @@ Section Arith.
     end.
   Definition w_cstr : M unit :=
     let* b := nulbytestr_read in push_data (CStr (cstr_chars (iter8 b))).
+
+  (* ---------- text encodings (base_ext.rs) ---------- *)
+  Definition string_of_codes (l : list N) : string :=
+    fold_right (fun c acc => String (ascii_of_N c) acc) EmptyString l.
+
+  Definition w_encode (enc : list N -> list N) : M unit :=
+    let* bs := into_bitstr in
+    match bytestr bs with
+    | None => fail EToBytestr None
+    | Some bytes => push_data (CStr (string_of_codes (enc bytes)))
+    end.
+
+  (* the decoders turn EVERY failure of their body (bad text, wrong type, empty stack) into nil *)
+  Definition w_decode (dec : list N -> option (list N)) : M unit :=
+    let* s := get in
+    if (ds_len (cx s) <? length (ds s))%nat then
+      let* c := pop_data in
+      match value c with
+      | CStr t =>
+        match dec (bytes_of_string t) with
+        | Some bytes => push_data (CBits (from_bytes bytes))
+        | None => push_data CNil
+        end
+      | _ => push_data CNil
+      end
+    else push_data CNil.
 End Arith.
 
 (* ---------- the table of native words ---------- *)
@@ -863,7 +889,11 @@ Definition word_table (fo : fops) : list (string * M unit) := [
   ("uint", with_size (fun n => with_order (read_unsigned n)));
   ("int!", with_size (fun n => with_order (pack_int n)));
   ("uint!", with_size (fun n => with_order (pack_int n)));
-  ("nulbytestr", w_nulbytestr); ("cstr", w_cstr)
+  ("nulbytestr", w_nulbytestr); ("cstr", w_cstr);
+  ("base32", w_encode (b32_encode Rfc4648)); ("base32>", w_decode (b32_decode Rfc4648));
+  ("base32hex", w_encode (b32_encode Crockford)); ("base32hex>", w_decode (b32_decode Crockford));
+  ("base64", w_encode b64_encode); ("base64>", w_decode b64_decode);
+  ("zero85", w_encode z85_encode); ("zero85>", w_decode z85_decode)
 ].
 
 Fixpoint table_find (t : list (string * M unit)) (name : string) : option (M unit) :=
